@@ -66,6 +66,8 @@ def composition_pool():
     out.append(("Array([Integer()], additionalItems=String())", lambda: Array([Integer()], additionalItems=String())))
     out.append(("Array([Integer(), Plain], additionalItems=Null())", lambda: Array([Integer(), E._cls_plain()], additionalItems=Null())))
     out.append(("Array([])", lambda: Array([])))
+    out.append(("Array([], additionalItems=False)", lambda: Array([], additionalItems=False)))
+    out.append(("Array([Integer()], additionalItems=False)", lambda: Array([Integer()], additionalItems=False)))
     out.append(("Array([], additionalItems=Integer())", lambda: Array([], additionalItems=Integer())))
     out.append(("Array(Array(Number()))", lambda: Array(Array(Number()))))
     out.append(("Array(AnyOf(Integer(), Array(String())))", lambda: Array(AnyOf(Integer(), Array(String())))))
@@ -153,18 +155,18 @@ def place(el, mode):
         # the parent model is declared AND used first; the subclass then adds the required property
         pcd = ObjectClassDict()
         pcd["base"] = Property(Integer())
-        parent = ObjectMeta("Base", (Object,), pcd)
+        parent = ObjectMeta("PlacementBase", (Object,), pcd)
         impl.do_call(parent, {"base": 1})
         impl.do_call(parent, {})
         cd["p"] = Property(el, required=True)
-        return ObjectMeta("Holder", (parent,), cd)
+        return ObjectMeta("PlacementModel", (parent,), cd)
     if mode == "optional":
         cd["p"] = Property(el)
     elif mode == "required":
         cd["p"] = Property(el, required=True)
     else:
         cd["p"] = Property(Array(el))
-    return ObjectMeta("Holder", (Object,), cd)
+    return ObjectMeta("PlacementModel", (Object,), cd)
 
 
 def annotation_of(model):
@@ -191,6 +193,17 @@ def check_element(st, label, factory, rank=0):
             st.violation("annotation-unavailable:%s" % type(exc).__name__, "%s [%s]: %r" % (label, mode, exc), {"element": label, "placement": mode}, rank)
             continue
         st.add("states")
+        # every name the annotation uses must be importable by the generated module: execute it in an empty namespace
+        try:
+            from statham.serializers import serialize_python
+
+            text = serialize_python(model)
+            gns = {"__builtins__": __builtins__}
+            exec(compile(text, "<generated>", "exec"), gns)
+            if not (gns.get("PlacementModel") == model):
+                st.violation("generated-model-not-equal", "%s [%s]: executing serialize_python(model) gives an unequal model class" % (label, mode), {"element": label, "placement": mode, "module": text[:800]}, rank)
+        except Exception as exc:
+            st.violation("generated-module-broken:%s" % type(exc).__name__, "%s [%s]: annotation %s: the generated module fails: %r" % (label, mode, ann, exc), {"element": label, "placement": mode, "annotation": ann}, rank)
         ns = {c.__name__: c for c in [el] + list(get_children(el)) if isinstance(c, ObjectMeta)}
         prop = model.properties["p"]
         maybe = isinstance(tree, ast.Subscript) and isinstance(tree.value, ast.Name) and tree.value.id == "Maybe"
